@@ -7,6 +7,16 @@ CLAIMS = {
    text="Decides structural necessary conditions of thread-safety from the source: every access to the aggregation map / expiry queue / worker list and every user-callback invocation holds AggregationProcess.mutex in the required mode in every calling context; every exit is lock-balanced; no operation releases and re-acquires the mutex; no guarded reference escapes. With Go's memory model this gives data-race freedom on the guarded state and atomicity of each operation; it does not decide the sequential correctness of the operations (C05-C07) and runs nothing.",
    note="Trusted: sync.RWMutex semantics, go/ssa + go/types fidelity, type-based lock identity (one AggregationProcess per function), dynamic calls resolved by signature among address-taken repo functions.",
    ref="DESIGN.md §5 C13, §3.2 B"),
+ "C12": dict(
+   technique="interprocedural lockset + wait-group/go-statement dominance + registration/deregistration path pairing + stop-closed-channel fixpoint over blocking selects (go/ssa)",
+   text="Decides necessary structural conditions for race-free multi-client collection and clean shutdown: guarded-by and lock balance for clients/templatesMap/numOfRecordsReceived/template fields; every go statement tracked by the wait group; Stop = close(stopChan) then Wait; every client registration paired with a deferred deregistration of the same key on all paths; every blocking select/receive of the package observes a stop-closed channel; delivery happens synchronously in the reader. Exactly-once/in-order delivery under all schedules, promptness and kernel socket release are not decided.",
+   note="Trusted: Go memory model, net.Listener/Conn unblock on Close by their owner, time.Ticker. The DTLS listener path is outside C12's configurations.",
+   ref="DESIGN.md §5 C12"),
+ "C14": dict(
+   technique="thread-sharing analysis over goroutine roots (call-graph reachability + lockset + atomic recognition), lock balance, dominance of the close protocol by the Swap guard, ticker/timer re-arm path rule (go/ssa)",
+   text="Decides necessary structural conditions for the exporter's background goroutines and lifecycle: no ExportingProcess field is shared between a background goroutine and the API with a write unless atomic / commonly locked / synchronising type; templatesMap only under templateMutex incl. aliases; all exits lock-balanced; goroutines tracked by the wait group, observe stopCh, call the internal close on failure, never wait on their own wait group; close(stopCh)/conn.Close only behind isClosed.Swap(true)==false; periodic tick source. Timing (check interval, refresh period) and bytes-after-close are not decided.",
+   note="Trusted: sync/atomic, time.Ticker, net.Conn.Write atomicity per call; application sends from one goroutine (property's proviso).",
+   ref="DESIGN.md §5 C14"),
 }
 NOT_YET = "rules designed (DESIGN.md §5) but not built yet in this round; no claim is made until the check exists"
 props=[json.loads(l) for l in open('/verif/properties.jsonl')]
